@@ -241,6 +241,12 @@ def main(tier):
             for p in (1, 2, 3, 5) if tier == 'quick' else range(1, 8):
                 for fi, form in enumerate(forms):
                     tasks.append({'kind': 'add_refs' if (fi + p) % 2 == 0 else 'add_refs_into', 'D': Ds, 'p': p, 'mode': mode, 'g': g, 'form': form})
+    # sums of operands that are far apart (one addend entirely below the rounding position), both argument orders
+    for mode in MODES:
+        for g in (-9, -6, 6, 9) if tier == 'quick' else (-12, -9, -6, 6, 9, 12):
+            for p in (1, 2, 3):
+                form = forms[(abs(g) + p) % 3]
+                tasks.append({'kind': 'add_refs' if p % 2 else 'add_refs_into', 'D': 2, 'p': p, 'mode': mode, 'g': g, 'form': form})
     rep.required_labels = {'rounds', 'pads', 'sum needs more than p digits'}
     rep.bounds = {'digits_D': D, 'with_prec_digits': Dp, 'sum_operand_digits': Ds, 'p': '1..D+5, plus padding at p = 100, 255..258, 270, 275, 276, 300, 511..513, 1000, 65535..65537 on 3-digit inputs', 'modes': MODES, 's0': 'symbolic |s0| <= 2^60'}
     rep.assumptions = ['digit counting (count_decimal_digits*) and get_rounding_term replaced by their contracts (decided for the real bodies in C18 / here at D=6 without contracts)',
